@@ -568,4 +568,30 @@ BENIGN = {
         "\n  multiples[axis + 1] = repeats\n  shape[axis] *= repeats\n"
         "  return tf.reshape(\n      tf.tile(tf.expand_dims(x, axis + 1), "
         "multiples), shape)\n")]),
+    "b31_relu_slope_single_lookup": dict(props=["C12"], edits=[E(
+        U, '      if layer["class_name"] == "LeakyReLU":\n        '
+        'negative_slope = layer["config"]["alpha"]\n      elif '
+        'layer["class_name"] == "relu":\n        max_value = '
+        'layer["config"]["max_value"]\n        negative_slope = '
+        'layer["config"]["alpha"]\n        threshold = '
+        'layer["config"]["threshold"]\n      else:  # ReLU from mobilenet\n'
+        '        max_value = layer["config"]["max_value"]\n        '
+        'negative_slope = layer["config"]["negative_slope"]\n        '
+        'threshold = layer["config"]["threshold"]\n',
+        '      # Keras ReLU stores the slope as negative_slope, the legacy '
+        'relu layer\n      # and LeakyReLU as alpha.\n      negative_slope '
+        '= layer["config"].get(\n          "negative_slope", '
+        'layer["config"].get("alpha", 0.0))\n')]),
+    "b32_mask_stored_as_2d_by_reshape": dict(props=["C13", "C11"], edits=[E(
+        "qkeras/qconvolutional.py",
+        '        "mask": self._mask.tolist() if self._mask is not None '
+        'else None,',
+        '        "mask": (np.reshape(self._mask, self._mask.shape[:2])'
+        '.tolist()\n                 if self._mask is not None else None),')]),
+    "b33_energy_keys_helper": dict(props=["C19"], edits=[E(
+        "qkeras/qtools/run_qtools.py",
+        '      keys = cfg_setting.get(class_name, cfg_setting.get("default", '
+        '[]))\n      value += sum(',
+        '      default_keys = cfg_setting.get("default", [])\n      keys = '
+        'cfg_setting.get(class_name, default_keys)\n      value += sum(')]),
 }
